@@ -53,19 +53,37 @@ Definition upd_conf (m : amap) (s : state) := mkState (vars s) (maskv s) (cidx s
 Record env := mkEnv {
   nch    : Z;                       (* len(decay_group.chains) *)
   resmap : list (Z * list Z);       (* resonance -> chains whose .inner contains it *)
-  fnames : list (Z * list amap)     (* chain -> the mask dicts DecayChain.factor_iteration(deep=1) yields *)
+  fnames : list (Z * list amap);    (* chain -> the mask dicts DecayChain.factor_iteration(deep=1) yields *)
+  tied   : list (Z * list Z)        (* name -> the names bound to the same tf.Variable (vm.variables order, the name itself
+                                       included); names without an entry are bound to a variable of their own.  The [vars]
+                                       component treats names as independent cells: it describes models without tied names *)
 }.
 Definition chains_of (e : env) (r : Z) : list Z :=
   match find (fun p => fst p =? r) (resmap e) with Some p => snd p | None => [] end.
+Definition tied_of (e : env) (k : Z) : list Z :=
+  match find (fun p => fst p =? k) (tied e) with Some p => snd p | None => [] end.
 Definition fnames_of (e : env) (i : Z) : list amap :=
   match find (fun p => fst p =? i) (fnames e) with Some p => snd p | None => [] end.
 Definition zrange (n : Z) : list Z := map Z.of_nat (seq 0 (Z.to_nat n)).
 Definition memz (x : Z) (l : list Z) : bool := existsb (Z.eqb x) l.
 
-(* VarsManager.get_all_dic(): {name: self.read(name)}; read() returns the MASKED value when the
-   name is in mask_vars *)
-Definition get_all_dic (s : state) : amap :=
+(* VarsManager.get_all_dic() = AbsPDF.get_params(): {name: self.get(name, val_in_fit=False)}, the STORED values
+   (since the C16 repair; before, {name: self.read(name)} - read() returns the MASKED value when the
+   name is in mask_vars: get_all_dic_masked) *)
+Definition get_all_dic (s : state) : amap := vars s.
+Definition get_all_dic_masked (s : state) : amap :=
   map (fun kv => (fst kv, match lookup (fst kv) (maskv s) with Some v => v | None => snd kv end)) (vars s).
+
+(* Python  d[k] = v : replace the value of an existing key in place, append a new key *)
+Definition dict_set (k : Z) (v : val) (m : amap) : amap :=
+  if has_key k m then set_one k v m else m ++ [(k, v)].
+(* VarsManager.mask_params(params) (since the C16 repair a nested mask MERGES with the outer one, the inner
+   values winning; before, the inner dict replaced the outer mask):
+     new_mask = dict(old_mask)
+     for k, v in params.items(): new_mask[k] = v; for i in variables: if variables[i] is variables.get(k): new_mask[i] = v *)
+Definition mask_merge (e : env) (p old : amap) : amap :=
+  fold_left (fun acc kv => fold_left (fun a i => dict_set i (snd kv) a) (tied_of e (fst kv))
+                                     (dict_set (fst kv) (snd kv) acc)) p old.
 
 (* DecayGroup.set_used_chains: chains_idx = list(used); not_full = (len(chains_idx) != len(chains)) *)
 Definition nf_of (e : env) (l : list Z) : bool := negb (Z.of_nat (length l) =? nch e).
@@ -143,7 +161,7 @@ Definition blk_enter (e : env) (b : blk) (s : state) : option (state * saved) :=
       if forallb (fun k => has_key k (vars s)) (keys p)
       then Some (upd_vars (set_all p (vars s)) s, SvMap (map (fun kv => (fst kv, getv (fst kv) (vars s))) p))
       else None
-  | BMaskParams p => Some (upd_mask p s, SvMap (maskv s))
+  | BMaskParams p => Some (upd_mask (mask_merge e p (maskv s)) s, SvMap (maskv s))
   | BTempUsedRes res ints => Some (set_used_res e res ints s, SvIdx (cidx s))
   | BTotalGlsOne => Some (upd_flags (map (fun _ => true) (mflags s)) s, SvFlags (mflags s))
   | BTempConfig name v =>   (* get_config / set_config raise for an unregistered name *)
@@ -283,8 +301,11 @@ Section Old.
       (fun m s => upd_vars (set_all m (vars s)) s) body.
   (* F11: AbsPDF.temp_params saved get_params() = the MASKED view (and, before F3, had no finally) *)
   Definition old_amp_temp_params (p : amap) (body : comp) : comp :=
-    with_block (fun s => Some (upd_vars (set_all p (vars s)) s, get_all_dic s))
+    with_block (fun s => Some (upd_vars (set_all p (vars s)) s, get_all_dic_masked s))
                (fun m s => upd_vars (set_all m (vars s)) s) body.
+  (* mask_params before the C16 repair: the inner dictionary REPLACED the outer mask inside the block
+     (restoration on exit was the same) *)
+  Definition old_mask_enter (p : amap) (s : state) : option (state * saved) := Some (upd_mask p s, SvMap (maskv s)).
   (* F4: cal_fitfractions ended with amp.set_used_res(amp.used_res) = all resonances, no finally *)
   Definition old_fitfractions (all_res res : list Z) (nb : nat) : comp :=
     then_restore (run_steps ev nb (set_used_res e res [] :: ff_pair_steps e res)) (set_used_res e all_res []).
